@@ -339,10 +339,10 @@ PROPS = {
     "C16": {
         "level": "proof",
         "claim": "Absolute wire format of the encoders against an independent RFC transcription (never the crate's decoder): frame / stream / setting / capsule / error-code registry values, ALPN h3, the QPACK static table == RFC 9204 Appendix A, WT preambles and datagram prefix == varint(0x41|0x54|qid) varint(session id), frame and stream-header encoders == RFC bytes, QPACK prefix integers == RFC 7541 5.1.",
-        "note": "Not under contract (HashMap iteration / sort closure / driver): exact content of the local SETTINGS frame, sorted_headers ordering (pseudo-headers first), Encoder::encode field-line choice beyond the integer/static-table primitives, 'exactly one control stream, SETTINGS first' (worker).",
+        "note": "The content of the local SETTINGS (WebTransport, H3 datagrams, extended CONNECT, zero-capacity QPACK table) and Encoder::encode's line-per-field grammar are Verus units. Not under contract (HashMap iteration / sort closure / driver): the order in which Settings::generate_frame emits the pairs, sorted_headers ordering (pseudo-headers first), 'exactly one control stream, SETTINGS first' (worker).",
         "kani": [FRAME_KIND_KANI[3], STREAM_KIND_KANI[3], SETTING_ID_KANI[3]] + MISC_KANI + [QPACK_MISC[1]] + QPACK_INT_ENC[:2]
                 + [STREAM_KANI_QUICK[5], STREAM_HEADER_KANI[1], FRAME_WRITE_KANI[0], DATAGRAM_KANI[2], CAPSULE_KANI[0]],
-        "verus": [V("qpack_encode"), V("frame_write", pair=("proto", "p_frame_write_roundtrip_8"))],
+        "verus": [V("qpack_encode"), V("frame_write", pair=("proto", "p_frame_write_roundtrip_8")), V("settings")],
         "not_decided": ["LocalSettingsStream content", "pseudo-header ordering", "Encoder::encode as a whole", "worker emission order"],
     },
     "C17": {
